@@ -219,7 +219,7 @@ def body_from_key(key):
 
 
 def work(key):
-    ex = Explorer()
+    ex = Explorer(max_paths=20000, budget_s=120, max_cex=50)
     ex.run(body_from_key(key))
     res = worker_result(ex, samples=[{"harness": list(key), "paths": ex.stats.paths}])
     for c in res["cexs"]:
@@ -269,7 +269,7 @@ def main(tier, seed):
         rep.merge_worker("reject", r)
     rep.section("reject", None, harnesses=len(keys))
     # vacuity: the same harness with an in-range value must NOT raise (so 'raises' is not vacuous)
-    ex = Explorer()
+    ex = Explorer(max_paths=3000, budget_s=90)
 
     def twin(inp):
         add_bv_inputs(inp)
@@ -282,7 +282,7 @@ def main(tier, seed):
 
     def one():
         if codec.MODEL:
-            Explorer().run(body_assemble("entry_literal_index"))
-            Explorer().run(body_sdk("rot_n"))
+            Explorer(max_paths=4, budget_s=30).run(body_assemble("entry_literal_index"))
+            Explorer(max_paths=4, budget_s=30).run(body_sdk("rot_n"))
     rep.functions_encoded |= trace_functions(one)
     return rep.finish(replay)
